@@ -7,45 +7,43 @@ open Lean Cfi.Version
 
 namespace Driver.Misc
 
-/-- C19: `{table:[[key, id]…] (declaration order), init, parent_init, sibling_init, table_on_parent: bool,
-requests:[key…], obs:{active_after:[…], parent_active, sibling_active}}`
-classes: 0 = parent, 1 = the class selections are made on, 2 = sibling -/
+/-- C19: `{tables:[table|null per class 0..2], init:[id|null per class], ops:[[cls, key]…],
+obs:[[active of class 0,1,2 after the op]…]}`; a table is `[[key, id]…]` in declaration order.
+classes: 0 = parent, 1 = child, 2 = sibling (both derive from 0) -/
 def handleC19 (j : Json) : R Json := do
-  let tbl ← (← arrF j "table").toList.mapM fun e => do
+  let decTable (t : Json) : R (Option Table) :=
+    match t with
+    | .null => pure none
+    | _ => do
+      let es ← (← t.getArr?).toList.mapM fun e => do
+        let a ← e.getArr?
+        let k ← chars (← idx a 0)
+        let v ← (← idx a 1).getNat?
+        pure (k, v)
+      pure (some es)
+  let tables ← (← arrF j "tables").toList.mapM decTable
+  let inits ← (← arrF j "init").toList.mapM optNat
+  let ops ← (← arrF j "ops").toList.mapM fun e => do
     let a ← e.getArr?
-    let k ← chars (← idx a 0)
-    let v ← (← idx a 1).getNat?
-    pure (k, v)
-  let init ← optNat ((j.getObjVal? "init").toOption.getD Json.null)
-  let pinit ← optNat ((j.getObjVal? "parent_init").toOption.getD Json.null)
-  let sinit ← optNat ((j.getObjVal? "sibling_init").toOption.getD Json.null)
-  let onParent := ((j.getObjVal? "table_on_parent").toOption.bind (·.getBool?.toOption)).getD false
-  let reqs ← (← arrF j "requests").toList.mapM chars
+    let c ← (← idx a 0).getNat?
+    let v ← chars (← idx a 1)
+    pure (c, v)
   let obsJ ← field j "obs"
   let cs0 : Classes := {
     parent := fun c => if c == 1 || c == 2 then some 0 else none
-    ownActive := fun c => if c == 0 then pinit else if c == 1 then init else if c == 2 then sinit else none
-    ownVersions := fun c => if (c == 1 && !onParent) || (c == 0 && onParent) then some tbl else none }
-  -- model run
-  let (csN, actives) := reqs.foldl (fun (acc : Classes × List (Option Nat)) v =>
-    let cs' := setVersion acc.1 3 1 v
-    (cs', acc.2 ++ [cs'.active 3 1])) (cs0, [])
-  let m : Spec.C19.Obs := { activeAfter := actives, parentActive := csN.active 3 0, siblingActive := csN.active 3 2 }
-  let enc (o : Spec.C19.Obs) : Json := Json.mkObj [("active_after", Json.arr (o.activeAfter.map jOptNat).toArray),
-    ("parent_active", jOptNat o.parentActive), ("sibling_active", jOptNat o.siblingActive)]
-  let initEff := cs0.active 3 1
-  let mholds := Spec.C19.holds tbl initEff (cs0.active 3 0) (cs0.active 3 2) reqs m
+    ownActive := fun c => (inits.getD c none)
+    ownVersions := fun c => (tables.getD c none) }
+  let watch := [0, 1, 2]
+  let m := Spec.C19.specTrace setVersion 3 watch cs0 ops
+  let enc (t : List (List (Option Nat))) : Json := Json.arr (t.map fun r => Json.arr (r.map jOptNat).toArray).toArray
+  let mholds := Spec.C19.holdsTrace cs0 3 watch ops m
   if isExc obsJ then
     pure (Json.mkObj [("indomain", toJson true), ("agree", toJson false), ("holds", toJson false),
       ("model_holds", toJson mholds), ("model", enc m)])
   else
-    let aa ← (← arrF obsJ "active_after").toList.mapM optNat
-    let pa ← optNat (← field obsJ "parent_active")
-    let sa ← optNat (← field obsJ "sibling_active")
-    let o : Spec.C19.Obs := { activeAfter := aa, parentActive := pa, siblingActive := sa }
+    let o ← (← obsJ.getArr?).toList.mapM fun r => do (← r.getArr?).toList.mapM optNat
     pure (Json.mkObj [("indomain", toJson true), ("agree", toJson (m == o)),
-      ("holds", toJson (Spec.C19.holds tbl initEff (cs0.active 3 0) (cs0.active 3 2) reqs o)),
-      ("model_holds", toJson mholds), ("model", enc m)])
+      ("holds", toJson (Spec.C19.holdsTrace cs0 3 watch ops o)), ("model_holds", toJson mholds), ("model", enc m)])
 
 def decodeElems (j : Json) : R (List Cfi.Equality.Elem) := do
   (← j.getArr?).toList.mapM fun e => do
